@@ -147,8 +147,15 @@ class TaskScheduler(object):
                     self._tasks.pop()
         except BaseException:
             # An exception is escaping the loop (e.g. a context raised while the generator of
-            # a failed task was being closed): don't leave our part of the task stack behind.
+            # a failed task was being closed, or a completion subscriber raised): don't leave
+            # our part of the task stack behind, and pause the contexts its tasks still hold
+            # active (innermost first) - none of them is executing any more.
+            given_up = self._tasks[init_num_tasks:]
             del self._tasks[init_num_tasks:]
+            for task in reversed(given_up):
+                if isinstance(task, AsyncTask):
+                    abandoned = task
+                    abandoned._pause_contexts()
             raise
 
     def _schedule_batch(self, batch):
